@@ -180,6 +180,13 @@ def extract():
                             "BodyFormat::Beve as u16, ) .await?; let last = resp.query.first().copied() == Some(1); "
                             "if !resp.body.is_empty() && tx.send(resp.body).await.is_err() { return Ok(()); } if last { return Ok(()); } }"):
         unrec.append("pull_loop_async: whole body")
+    # --- no timer, sleep, timeout, retry or non-blocking send/receive anywhere in the streaming code today: any that appears
+    # (a reply timeout that re-issues `next`, a bounded wait that gives up on a slow consumer, a `try_send` of the terminal
+    # marker) changes what a stalled peer sees and is listed
+    stream_code = src[:src.find("fn write_file")] + src[src.find("struct ChunkReader"):src.find("struct TeeWriter")]
+    for tok in ("sleep", "timeout", "Duration", "Instant", "try_send", "try_recv", "recv_timeout", "send_timeout", "retry", "interval", "deadline", "select!"):
+        if re.search(r"\b" + re.escape(tok) + r"\b" if tok != "select!" else r"select!", stream_code):
+            unrec.append(f"timer / retry arm in the streaming code: {tok}")
     # --- formats, routes ---------------------------------------------------------------------------
     consts = strip(read("src/constants.rs"))
     m = re.search(r"pub enum BodyFormat\s*\{([^}]*)\}", consts)
